@@ -1474,3 +1474,25 @@ def option_clone(ex, args, callee):
             return some(arc_clone(ex, [inner], callee))
         return v
     return NONE
+
+
+@stub('catch_unwind', 'panic::catch_unwind', 'std::panic::catch_unwind')
+def catch_unwind(ex, args, callee):
+    f = args[0]
+    if isinstance(f, Agg) and f.name == 'AssertUnwindSafe':
+        f = f.fields[0]
+    try:
+        r = call_callable(ex, f, [])
+    except Unwinding as u:
+        return err(BoxV(Cell(Native('PanicPayload', u.payload, fresh_id()), 'panic-payload')))
+    return ok(r)
+
+
+@stub('<AssertUnwindSafe as FnOnce>::call_once', '<AssertUnwindSafe as Deref>::deref')
+def assert_unwind_safe_call(ex, args, callee):
+    f = ex.deref_all(args[0])
+    if isinstance(f, Agg) and f.name == 'AssertUnwindSafe':
+        f = f.fields[0]
+    if 'call_once' in callee:
+        return call_callable(ex, f, [])
+    return f
